@@ -446,9 +446,12 @@ class Decimal(Element):
 
     @unconvert.register
     def _unconvert_decimal(self, value: decimal.Decimal):
+        if not value.is_finite():
+            raise ValueError(f"'{value}' can't be written as an OFX amount")
         if self.scale is not None and not value.same_quantum(self.scale):
             raise ValueError(f"'{value}' doesn't match scale={self.scale}")
-        return str(value)
+        # Plain notation; str() switches to exponent notation for e.g. 1E+2, 0E-10
+        return format(value, "f")
 
     @unconvert.register
     def _unconvert_none(self, value: None) -> None:
